@@ -57,6 +57,14 @@ AInit == env = "usable"
 \* one API call with its answer
 Call(op, a) ==
   IF op.k \in {"destroy", "killinit"} THEN env' = "lost"
+  ELSE IF op.k = "ping" /\ op.v = "stall" THEN
+       \* the container is stalled for longer than Ping's bound (3 s): the call must come back in time; after a
+       \* timed-out Ping the environment is consistently one of the two -- lost (what the code does: the bound is a
+       \* socket deadline) or still fully usable; TLC explores both, the rest of the history has to fit one of them
+       /\ a.ms <= PromptMs
+       /\ IF env = "usable" THEN \/ (a.r = "ok" /\ UNCHANGED env)
+                                \/ (a.r = "err" /\ a.err # "" /\ env' \in {"usable", "lost"})
+                         ELSE (AllowedLost(op, a) /\ UNCHANGED env)
   ELSE IF op.loss THEN      \* the transport was lost while this call was in flight: either answer
        /\ (IF env = "usable" THEN Allowed(op, a) \/ AllowedLost(op, a) ELSE AllowedLost(op, a))
        /\ env' = "lost"
